@@ -396,6 +396,8 @@ def bfs(tier, blocking=False, shared_only=False, strict=False):
             for c in calls:
                 if c["tag"].startswith(("body-", "noparams-")) and len(path) > 2:
                     continue      # refused before the stores are looked at: issued in every state up to depth 2 only
+                if not strict and ("lintbad" in c["tag"] or "dupkeys" in c["tag"]) and len(path) > 2:
+                    continue      # (a third definition value multiplies the store states: beyond depth 2 these calls belong to the validating search)
                 sut.restore(snap)
                 before = sut.full_dump()
                 r2 = ref.clone()
